@@ -150,7 +150,13 @@ def showNat (n : Nat) : Str := natDigits (n.log2 + 1) n []
 /-- `str(i)` -/
 def showInt (i : Int) : Str := if i < 0 then '-' :: showNat i.natAbs else showNat i.natAbs
 
-def isWs (c : Char) : Bool := c = ' ' || c = '\t' || c = '\n' || c = '\r' || c = '\x0b' || c = '\x0c'
+/-- code points `int(str)` / `float(str)` strip: C `isspace` for ASCII (\t \n \v \f \r and space — NOT \x1c–\x1f, which only
+    `str.isspace` counts) and the Unicode White_Space characters beyond ASCII. -/
+def wsCodes : List Nat :=
+  [9, 10, 11, 12, 13, 32, 0x85, 0xa0, 0x1680, 0x2000, 0x2001, 0x2002, 0x2003, 0x2004, 0x2005, 0x2006, 0x2007, 0x2008, 0x2009, 0x200a,
+   0x2028, 0x2029, 0x202f, 0x205f, 0x3000]
+
+def isWs (c : Char) : Bool := wsCodes.contains c.toNat
 
 def digVal (base : Nat) (c : Char) : Option Nat :=
   match Str.hexVal c with
@@ -190,7 +196,7 @@ def dropHexPrefix : Str → Str
   | r => r
 
 /-- `int(s, base)` for `base` 10 and 16 on ASCII input: blanks stripped, optional sign, digits with single underscores.
-    (Non-ASCII digits and blanks are outside the model and never generated.) -/
+    (Non-ASCII DIGITS are outside the model and never generated.) -/
 def pyInt (base : Nat) (s : Str) : Except PyExc Int :=
   let (neg, body) := signed (s.dropWhile isWs)
   let body := if base = 16 then dropHexPrefix body else body
@@ -297,6 +303,85 @@ def cat (l r : Str) : Str :=
   | q :: _ => q :: (unq l ++ unq r ++ [q])
   | [] => unq l ++ unq r
 
+/-! ## escape sequences of string-literal bodies: `_cat` joins token TEXTS, `_joins_escape` (evaluator.py:150-161, since 05486b1)
+       refuses the joins that would change what the texts decode to -/
+
+/-- decoder state: plain text, after a backslash, inside `\ooo` (value, digits so far), after `\x`, after `\xh`. -/
+inductive DecState where
+  | normal | backslash | oct (v n : Nat) | hex0 | hex1 (c0 : Char) (v : Nat)
+deriving DecidableEq, Repr
+
+def octVal (c : Char) : Option Nat := if 48 ≤ c.toNat ∧ c.toNat ≤ 55 then some (c.toNat - 48) else none
+
+/-- the one-character escapes of Python string literals -/
+def simpleEsc (c : Char) : Option Char :=
+  if c = 'n' then some '\n' else if c = 't' then some '\t' else if c = 'r' then some '\r'
+  else if c = 'a' then some (Char.ofNat 7) else if c = 'b' then some (Char.ofNat 8)
+  else if c = 'f' then some (Char.ofNat 12) else if c = 'v' then some (Char.ofNat 11)
+  else if c = '\\' then some '\\' else if c = '\'' then some '\'' else if c = '"' then some '"'
+  else none
+
+/-- a character in plain text -/
+def stepNormal (c : Char) : Str × DecState := if c = '\\' then ([], .backslash) else ([c], .normal)
+
+/-- one character of the body: what is emitted, and the next state. `\ooo` takes 1–3 octal digits, `\xhh` exactly two hex
+    digits, an unknown escape keeps its backslash (CPython does, with a warning); `\u`, `\U`, `\N{…}` and a malformed `\x`
+    are outside the model (never generated). -/
+def stepSt : DecState → Char → Str × DecState
+  | .normal, c => stepNormal c
+  | .backslash, c =>
+    match octVal c with
+    | some d => ([], .oct d 1)
+    | none =>
+      if c = 'x' then ([], .hex0)
+      else match simpleEsc c with
+        | some e => ([e], .normal)
+        | none => (['\\', c], .normal)
+  | .oct v n, c =>
+    match octVal c with
+    | some d => if n < 2 then ([], .oct (v * 8 + d) (n + 1)) else ([Char.ofNat (v * 8 + d)], .normal)
+    | none => (Char.ofNat v :: (stepNormal c).1, (stepNormal c).2)
+  | .hex0, c =>
+    match Str.hexVal c with
+    | some d => ([], .hex1 c d)
+    | none => ('\\' :: 'x' :: (stepNormal c).1, (stepNormal c).2)
+  | .hex1 c0 v, c =>
+    match Str.hexVal c with
+    | some d => ([Char.ofNat (v * 16 + d)], .normal)
+    | none => ('\\' :: 'x' :: c0 :: (stepNormal c).1, (stepNormal c).2)
+
+/-- what is still pending at the end of the body -/
+def flushSt : DecState → Str
+  | .normal => []
+  | .backslash => ['\\']
+  | .oct v _ => [Char.ofNat v]
+  | .hex0 => ['\\', 'x']
+  | .hex1 c0 _ => ['\\', 'x', c0]
+
+def decodeGo (st : DecState) : Str → Str
+  | [] => flushSt st
+  | c :: cs => (stepSt st c).1 ++ decodeGo (stepSt st c).2 cs
+
+/-- the state the decoder is in after a body -/
+def endState (st : DecState) : Str → DecState
+  | [] => st
+  | c :: cs => endState (stepSt st c).2 cs
+
+/-- CPython's decoding of the body of a (non-raw) string literal. -/
+def decodeEsc (body : Str) : Str := decodeGo .normal body
+
+/-- joining the bodies `l` and `r` changes what they decode to: `l` ends inside an escape that `r` would continue
+    (for the bodies of valid tokens: `l` ends in `\o` or `\oo` and `r` starts with an octal digit). -/
+def joinsEscape (l r : Str) : Bool :=
+  match endState .normal l with
+  | .normal => false
+  | .oct _ _ => (match r with | c :: _ => (octVal c).isSome | [] => false)
+  | _ => true
+
+/-- the shipped join rule: `assert … and not self._joins_escape(left, right)` then `_cat` (evaluator.py:80-81). -/
+def catSafe (l r : Str) : Except Err Str :=
+  if joinsEscape (unq l) (unq r) then .error .notAllowed else .ok (cat l r)
+
 /-- `_calc` on two floats (evaluator.py:90-109): the ladder is the generated `calcTable`; `assert False` → OperationNotAllowed. -/
 def calcF {F} (ops : FloatOps F) (op : Str) (x y : F) : Except Err F :=
   match calcTable.lookup op with
@@ -342,7 +427,7 @@ def step {F} (ops : FloatOps F) (op : Str) (l r : V F) : Except Err (V F) :=
       if arithmeticOps.contains op then (calcI ops op a b).map .int else (bitwiseI op a b).map .int
     | .str a, .str b =>
       if op = ['+'] then
-        if allowString a && allowString b then .ok (.str (cat a b)) else .error .notAllowed
+        if allowString a && allowString b then (catSafe a b).map .str else .error .notAllowed   -- evaluator.py:80-81
       else .error .notAllowed
     | _, _ => .error .notAllowed
 
@@ -633,31 +718,6 @@ def simB {F} [DecidableEq F] : V F → V F → Bool
   | .float x, .float y => x = y
   | .str s, .str c => allowString s && unq s = c
   | _, _ => false
-
-/-! ## octal escapes (only to state the one known finding that is left: `_cat` joins token TEXTS) -/
-
-inductive DecState where
-  | normal | backslash | oct (v n : Nat)
-
-def octVal (c : Char) : Option Nat := if 48 ≤ c.toNat ∧ c.toNat ≤ 55 then some (c.toNat - 48) else none
-
-/-- CPython's decoding of the body of a string literal, restricted to `\ooo` (1–3 octal digits); every other backslash
-    sequence is left as it is (outside this model, never generated for the `unescape` stream). -/
-def decodeGo : DecState → Str → Str
-  | .normal, [] => []
-  | .backslash, [] => ['\\']
-  | .oct v _, [] => [Char.ofNat v]
-  | .normal, c :: cs => if c = '\\' then decodeGo .backslash cs else c :: decodeGo .normal cs
-  | .backslash, c :: cs =>
-    match octVal c with
-    | some d => decodeGo (.oct d 1) cs
-    | none => '\\' :: c :: decodeGo .normal cs
-  | .oct v n, c :: cs =>
-    match octVal c with
-    | some d => if n < 2 then decodeGo (.oct (v * 8 + d) (n + 1)) cs else Char.ofNat (v * 8 + d) :: decodeGo .normal cs
-    | none => Char.ofNat v :: (if c = '\\' then decodeGo .backslash cs else c :: decodeGo .normal cs)
-
-def decodeOct (body : Str) : Str := decodeGo .normal body
 
 /-! ## the symbolic float used by the driver and by the examples -/
 
